@@ -227,7 +227,75 @@ func famGate(g *sgen, i int) J {
 		"steps": []interface{}{step(entry, method, g.header(g.r.chance(70)), path, body)}}
 }
 
-var families = map[string]family{"inbox": famInbox, "outbox": famOutbox, "send": famSend, "get": famGet, "gate": famGate}
+// inbox/outbox bodies whose id is absent, null, empty, a number, an object, a relative reference or an absolute IRI
+func famIds(g *sgen, i int) J {
+	w := g.baseWorld()
+	w["fedCallbacks"] = g.cbConfig(inboxTypes)
+	w["socialCallbacks"] = g.cbConfig(outboxTypes)
+	inbox := i%3 != 2
+	var a J
+	if inbox {
+		a = g.inboxActivity(inboxTypes[g.r.intn(len(inboxTypes))], w)
+	} else {
+		a = g.outboxValue(outboxTypes[g.r.intn(len(outboxTypes))], w)
+	}
+	switch i % 7 {
+	case 0:
+		delete(a, "id")
+	case 1:
+		a["id"] = nil
+	case 2:
+		a["id"] = ""
+	case 3:
+		a["id"] = 5.0
+	case 4:
+		a["id"] = J{"href": "https://b.example/x"}
+	case 5:
+		a["id"] = "/relative/ref"
+	default:
+		a["id"] = remote("/activities/ok")
+	}
+	if inbox {
+		return J{"label": "ids-inbox", "cfg": J{"kind": "both"}, "world": w,
+			"steps": []interface{}{step("postInbox", "POST", g.header(true), "/users/alice/inbox", a)}}
+	}
+	return J{"label": "ids-outbox", "unordered": a["type"] == "Create", "cfg": J{"kind": "both"}, "world": w,
+		"steps": []interface{}{step("postOutbox", "POST", g.header(true), "/users/alice/outbox", a)}}
+}
+
+// activities lacking a required object or target (absent or empty), for every handled type, inbox and outbox
+func famMissing(g *sgen, i int) J {
+	w := g.baseWorld()
+	w["fedCallbacks"] = J{"onFollow": float64(g.r.intn(3))}
+	w["socialCallbacks"] = J{}
+	types := []string{"Create", "Update", "Delete", "Follow", "Add", "Remove", "Like", "Undo", "Block", "Announce", "Accept", "Reject"}
+	ty := types[i%len(types)]
+	inbox := (i/len(types))%2 == 0
+	var a J
+	if inbox {
+		a = g.inboxActivity(ty, w)
+	} else {
+		a = g.outboxValue(ty, w)
+	}
+	switch (i / (2 * len(types))) % 4 {
+	case 0:
+		delete(a, "object")
+	case 1:
+		a["object"] = []interface{}{}
+	case 2:
+		delete(a, "target")
+	default:
+		a["target"] = []interface{}{}
+	}
+	if inbox {
+		return J{"label": "missing-inbox-" + ty, "cfg": J{"kind": "both"}, "world": w,
+			"steps": []interface{}{step("postInbox", "POST", g.header(true), "/users/alice/inbox", a)}}
+	}
+	return J{"label": "missing-outbox-" + ty, "unordered": ty == "Create", "cfg": J{"kind": "both"}, "world": w,
+		"steps": []interface{}{step("postOutbox", "POST", g.header(true), "/users/alice/outbox", a)}}
+}
+
+var families = map[string]family{"ids": famIds, "missing": famMissing, "inbox": famInbox, "outbox": famOutbox, "send": famSend, "get": famGet, "gate": famGate}
 
 // args: <prop> <count> <maxFaultsPerScenario> fam1,fam2,...
 func genPub(r *rng, thorough bool, args []string, yield func(in J)) {
